@@ -10,7 +10,7 @@ the 3 x 3 table of the property statement.
 
 usage: c19_transfer.py <tier> <seed>
 """
-import sys, os, json, time, random, math, signal, shutil, tempfile, traceback, glob
+import sys, os, io, json, time, random, math, signal, shutil, tempfile, traceback, glob, contextlib
 import warnings
 warnings.filterwarnings('ignore')
 REPO = os.environ.get('PYTOUGH_REPO', '/repo')
@@ -213,7 +213,8 @@ def contract_block_mapping(src, tgt, orc):
     missing = [n for n in names if n not in mapping]
     if missing:
         return False, 'mapping-not-total', 'target blocks without an image: %r' % missing[:3], mapping, colmap
-    extra = [n for n in mapping if n not in set(names)]
+    nameset = set(names)
+    extra = [n for n in mapping if n not in nameset]
     if extra:
         return False, 'mapping-extra-keys', 'keys that are not target blocks: %r' % extra[:3], mapping, colmap
     for col in tgt.columnlist:
@@ -305,7 +306,8 @@ def contract_incon_transfer(src, tgt, orc, nvar, explicit):
     if len(ninc._blocklist) != len(got): return False, 'incon-duplicate', 'duplicate blocks in the result'
     missing = [n for n in names if n not in got]
     if missing: return False, 'incon-missing', 'target blocks without initial conditions: %r' % missing[:3]
-    extra = [n for n in got if n not in set(names)]
+    nameset = set(names)
+    extra = [n for n in got if n not in nameset]
     if extra: return False, 'incon-extra', 'initial conditions for blocks that are not in the target: %r' % extra[:3]
     satm = [state[n] for n in orc.src_atm]
     for name, kind, layname, colname in blocks:
@@ -499,8 +501,8 @@ def contract_model_refined(rnd, desc, rdesc, atm, nvar, preserve):
 
 def gen_tasks(rnd):
     tasks = []
-    npairs = {'quick': 24, 'thorough': 320}.get(tier, 24)
-    nmodels = {'quick': 40, 'thorough': 600}.get(tier, 40)
+    npairs = {'quick': 120, 'thorough': 2000}.get(tier, 120)
+    nmodels = {'quick': 150, 'thorough': 3000}.get(tier, 150)
     combos = [(a, b) for a in (0, 1, 2) for b in (0, 1, 2)]
     for i in range(npairs):
         kind = ['coarse-fine', 'refine', 'refine-layers', 'shifted', 'surfaced', 'coarse-fine', 'rotated'][i % 7]
@@ -557,6 +559,9 @@ def gen_tasks(rnd):
         ncol = len(d['dx']) * len(d['dy'])
         t = dict(task='model', desc=d, atm=rnd.choice([0, 1, 2]), nvar=rnd.randint(1, 4), rename=rnd.random() < 0.3,
                  preserve=rnd.random() < 0.5, incon_file=rnd.random() < 0.4, model=i, seed=rnd.randrange(10 ** 9))
+        # t2incon() refuses to read convention-3 block names (letters in the last two places): that is the incon
+        # file's affair (C13), so the file variant is run where the file can be read back
+        if d['convention'] == 3: t['incon_file'] = False
         if i % 3 == 2 and d['convention'] != 1:
             r = json.loads(json.dumps(d))
             r['ops'] = [['refine', sorted(rnd.sample(range(ncol), rnd.randint(1, ncol)))]] if i % 2 else \
@@ -570,75 +575,82 @@ CONTRACTS = ['block_mapping', 'layer_mapping', 'self_identity', 'incon_transfer'
              'model_identical', 'model_refined']
 
 
+def run_body(t, tmpdir, fails, counts, desc, stage):
+    """Evaluates every contract of one task; returns a sample description."""
+    sample = None
+    if t['task'] == 'pair':
+        inp = dict(t)
+        src, tgt = build_geo(t['src'], t['satm']), build_geo(t['tgt'], t['tatm'])
+        base = 'satm=%d tatm=%d %s src=%s tgt=%s pair=%d' % (src.atmosphere_type, tgt.atmosphere_type, t['kind'],
+                                                            tag_of(t['src']), tag_of(t['tgt']), t['pair'])
+
+        def fail(cat, what):
+            fails.append({'key': '%s %s' % (cat, base), 'what': what, 'input': inp})
+        orc = Oracle(src, tgt)
+        stage[0] = 'block_mapping'
+        counts['block_mapping'] += 1
+        ok, cat, what, mapping, colmap = contract_block_mapping(src, tgt, orc)
+        if not ok: fail(cat, what)
+        stage[0] = 'layer_mapping'
+        counts['layer_mapping'] += 1
+        ok, what = contract_layer_mapping(src, tgt, orc)
+        if not ok: fail('layer-not-nearest', what)
+        if t['satm'] == t['tatm'] or t['satm'] is None:
+            stage[0] = 'self_identity'
+            for g, nm in ((src, 'src'), (tgt, 'tgt')):
+                counts['self_identity'] += 1
+                ok, what = contract_self_identity(g)
+                if not ok: fail('self-not-identity(%s)' % nm, what)
+        stage[0] = 'incon_transfer'
+        counts['incon_transfer'] += 1
+        ok, cat, what = contract_incon_transfer(src, tgt, orc, t['nvar'], False)
+        if not ok: fail(cat, what)
+        counts['incon_transfer_explicit_mapping'] += 1
+        ok, cat, what = contract_incon_transfer(src, tgt, orc, t['nvar'], True)
+        if not ok: fail(cat + '(explicit-mapping)', what)
+        nabove = 0
+        # how often the above-surface correction is in play (for the case descriptor)
+        for name, kind, layname, colname in orc.target_blocks():
+            if kind == 'ug' and any(C.surface <= L.bottom for C in orc.colset[colname] for L in orc.layset[layname]):
+                nabove += 1
+        desc.append(('pair', t['kind'], tag_of(t['src']), tag_of(t['tgt']), src.atmosphere_type, tgt.atmosphere_type, t['nvar'], nabove > 0))
+        sample = {'case': base, 'source_blocks': src.num_blocks, 'target_blocks': tgt.num_blocks,
+                  'target_blocks_needing_above_surface_correction': nabove}
+    else:
+        rnd = random.Random(t['seed'])
+        base = 'atm=%d conv=%d nvar=%d rename=%s preserve=%s inconfile=%s geo=%s model=%d' % (
+            t['atm'], t['desc']['convention'], t['nvar'], t['rename'], t['preserve'], t['incon_file'], tag_of(t['desc']), t['model'])
+        inp = dict(t)
+
+        def fail(cat, what):
+            fails.append({'key': '%s %s' % (cat, base), 'what': what, 'input': inp})
+        stage[0] = 'model_identical'
+        counts['model_identical'] += 1
+        ok, cat, what = contract_model_identical(rnd, t['desc'], t['atm'], t['nvar'], t['rename'], t['preserve'], tmpdir, t['incon_file'])
+        if not ok: fail(cat, what)
+        if 'refined' in t:
+            stage[0] = 'model_refined'
+            counts['model_refined'] += 1
+            ok, cat, what = contract_model_refined(rnd, t['desc'], t['refined'], t['atm'], t['nvar'], t['preserve'])
+            if not ok: fail(cat + '(refined:%s)' % t['refined']['ops'][0][0], what)
+        desc.append(('model', tag_of(t['desc']), t['atm'], t['rename'], t['preserve'], t['incon_file'], 'refined' in t))
+    return sample
+
+
 def run_task(t):
     fails, counts, desc = [], dict((c, 0) for c in CONTRACTS), []
     tmpdir = tempfile.mkdtemp(prefix='pytough-', dir='/var/tmp')
     signal.signal(signal.SIGALRM, _alarm)
     signal.alarm(TASK_TIMEOUT)
     sample = None
-    stage = 'build'
+    stage = ['build']
     try:
-        if t['task'] == 'pair':
-            base = 'satm=%s tatm=%s %s src=%s tgt=%s pair=%d' % (t['satm'], t['tatm'], t['kind'], tag_of(t['src']), tag_of(t['tgt']), t['pair'])
-            inp = dict(t)
-
-            def fail(cat, what):
-                fails.append({'key': '%s %s' % (cat, base), 'what': what, 'input': inp})
-            src, tgt = build_geo(t['src'], t['satm']), build_geo(t['tgt'], t['tatm'])
-            base = base.replace('satm=None', 'satm=%d' % src.atmosphere_type).replace('tatm=None', 'tatm=%d' % tgt.atmosphere_type)
-            orc = Oracle(src, tgt)
-            stage = 'block_mapping'
-            counts['block_mapping'] += 1
-            ok, cat, what, mapping, colmap = contract_block_mapping(src, tgt, orc)
-            if not ok: fail(cat, what)
-            stage = 'layer_mapping'
-            counts['layer_mapping'] += 1
-            ok, what = contract_layer_mapping(src, tgt, orc)
-            if not ok: fail('layer-not-nearest', what)
-            if t['satm'] == t['tatm'] or t['satm'] is None:
-                stage = 'self_identity'
-                for g, nm in ((src, 'src'), (tgt, 'tgt')):
-                    counts['self_identity'] += 1
-                    ok, what = contract_self_identity(g)
-                    if not ok: fail('self-not-identity(%s)' % nm, what)
-            stage = 'incon_transfer'
-            counts['incon_transfer'] += 1
-            ok, cat, what = contract_incon_transfer(src, tgt, orc, t['nvar'], False)
-            if not ok: fail(cat, what)
-            counts['incon_transfer_explicit_mapping'] += 1
-            ok, cat, what = contract_incon_transfer(src, tgt, orc, t['nvar'], True)
-            if not ok: fail(cat + '(explicit-mapping)', what)
-            nabove = 0
-            if mapping:
-                # how often the above-surface correction is in play (for the case descriptor)
-                for name, kind, layname, colname in orc.target_blocks():
-                    if kind == 'ug' and any(C.surface <= L.bottom for C in orc.colset[colname] for L in orc.layset[layname]):
-                        nabove += 1
-            desc.append(('pair', t['kind'], tag_of(t['src']), tag_of(t['tgt']), src.atmosphere_type, tgt.atmosphere_type, t['nvar'], nabove > 0))
-            sample = {'case': base, 'source_blocks': src.num_blocks, 'target_blocks': tgt.num_blocks,
-                      'target_blocks_needing_above_surface_correction': nabove}
-        else:
-            rnd = random.Random(t['seed'])
-            base = 'atm=%d conv=%d nvar=%d rename=%s preserve=%s inconfile=%s geo=%s model=%d' % (
-                t['atm'], t['desc']['convention'], t['nvar'], t['rename'], t['preserve'], t['incon_file'], tag_of(t['desc']), t['model'])
-            inp = dict(t)
-
-            def fail(cat, what):
-                fails.append({'key': '%s %s' % (cat, base), 'what': what, 'input': inp})
-            stage = 'model_identical'
-            counts['model_identical'] += 1
-            ok, cat, what = contract_model_identical(rnd, t['desc'], t['atm'], t['nvar'], t['rename'], t['preserve'], tmpdir, t['incon_file'])
-            if not ok: fail(cat, what)
-            if 'refined' in t:
-                stage = 'model_refined'
-                counts['model_refined'] += 1
-                ok, cat, what = contract_model_refined(rnd, t['desc'], t['refined'], t['atm'], t['nvar'], t['preserve'])
-                if not ok: fail(cat + '(refined:%s)' % t['refined']['ops'][0][0], what)
-            desc.append(('model', tag_of(t['desc']), t['atm'], t['rename'], t['preserve'], t['incon_file'], 'refined' in t))
+        with contextlib.redirect_stdout(io.StringIO()):       # refine() prints when it skips a selection
+            sample = run_body(t, tmpdir, fails, counts, desc, stage)
     except TaskTimeout:
-        fails.append({'key': 'timeout %s %s' % (stage, json.dumps(t, sort_keys=True)[:120]), 'what': 'no result within %d s' % TASK_TIMEOUT, 'input': t})
+        fails.append({'key': 'timeout %s %s' % (stage[0], json.dumps(t, sort_keys=True)[:120]), 'what': 'no result within %d s' % TASK_TIMEOUT, 'input': t})
     except Exception:
-        fails.append({'key': 'harness-error %s %s' % (stage, t.get('kind', t['task'])), 'what': traceback.format_exc()[-700:], 'input': t})
+        fails.append({'key': 'harness-error %s %s' % (stage[0], t.get('kind', t['task'])), 'what': traceback.format_exc()[-700:], 'input': t})
     finally:
         signal.alarm(0)
         shutil.rmtree(tmpdir, ignore_errors=True)
